@@ -167,6 +167,40 @@ def check_shared_state(ctx, prog, root, prefix):
     return n7
 
 
+def check_buffer_pools(ctx, prog, prefix="C15.U4"):
+    """the code generator's pooled scratch vectors (pending blocks, span stack) are thread-local and outlive a
+    compilation: only the take / recycle helpers touch a pool, and a taken buffer is cleared on every path before it is
+    handed out - otherwise spans (byte ranges of *another* template) or pending blocks leak into the next compilation"""
+    pools = {"minijinja::compiler::codegen::PENDING_BLOCK_POOL": ("take_pending_block_buffer", "recycle_pending_block_buffer"),
+             "minijinja::compiler::codegen::SPAN_STACK_POOL": ("take_span_stack_buffer", "recycle_span_stack_buffer")}
+    for pool, (take, rec) in pools.items():
+        users = set()
+        for f in prog.fns.values():
+            if any(n == pool or n.startswith(pool + "::") for n in query.named_consts(f)):
+                users.add(f.root or f.path)
+        users = {u for u in users if not u.startswith(pool)}
+        allowed = {"minijinja::compiler::codegen::" + take, "minijinja::compiler::codegen::" + rec}
+        ctx.ob(prefix + ".pool-touched-only-by-helpers", pool, bool(users) and users <= allowed,
+               "pool accessed from %s" % sorted(users - allowed), "")
+        tf = prog.fn("minijinja::compiler::codegen::" + take)
+        clears = [c for c in tf.calls() if c.name == "alloc::vec::Vec::clear"]
+        ok = bool(clears) and cfg.paths_must_pass(tf, 0, [c.bb for c in clears], tf.returns())
+        # the cleared vec is the one returned
+        same = False
+        for c in clears:
+            tgt = set()
+            for d in flow.whole_defs(tf, op_place(c.args[0])["l"]):
+                if d.kind == "stmt" and d.rv["k"] == "ref":
+                    tgt.add(d.rv["place"]["l"])
+            for bb, i, s in tf.all_stmts():
+                if s["k"] == "assign" and s["place"] == {"l": 0} and s["rv"]["k"] == "use" and op_place(s["rv"]["op"]) and \
+                        op_place(s["rv"]["op"])["l"] in tgt:
+                    same = True
+        ctx.ob(prefix + ".taken-buffer-is-cleared", tf.path, ok and same,
+               "a pooled buffer can be handed out without clear(): instructions state from a previous compilation "
+               "leaks into the next", tf.loc)
+
+
 def run(ctx):
     ctx.explain("C15: ordering rule on fallible mutators (no mutation of self may precede a propagated failure), "
                 "pairing rule for the two template tiers, reviewed-table rule for process-global mutable state, "
@@ -350,34 +384,7 @@ def run(ctx):
     ctx.floor("C15.U3 mutable statics / thread-locals", n3, 12)
 
     # ---- U4
-    pools = {"minijinja::compiler::codegen::PENDING_BLOCK_POOL": ("take_pending_block_buffer", "recycle_pending_block_buffer"),
-             "minijinja::compiler::codegen::SPAN_STACK_POOL": ("take_span_stack_buffer", "recycle_span_stack_buffer")}
-    for pool, (take, rec) in pools.items():
-        users = set()
-        for f in prog.fns.values():
-            if any(n == pool or n.startswith(pool + "::") for n in query.named_consts(f)):
-                users.add(f.root or f.path)
-        users = {u for u in users if not u.startswith(pool)}
-        allowed = {"minijinja::compiler::codegen::" + take, "minijinja::compiler::codegen::" + rec}
-        ctx.ob("C15.U4.pool-touched-only-by-helpers", pool, bool(users) and users <= allowed,
-               "pool accessed from %s" % sorted(users - allowed), "")
-        tf = prog.fn("minijinja::compiler::codegen::" + take)
-        clears = [c for c in tf.calls() if c.name == "alloc::vec::Vec::clear"]
-        ok = bool(clears) and cfg.paths_must_pass(tf, 0, [c.bb for c in clears], tf.returns())
-        # the cleared vec is the one returned
-        same = False
-        for c in clears:
-            tgt = set()
-            for d in flow.whole_defs(tf, op_place(c.args[0])["l"]):
-                if d.kind == "stmt" and d.rv["k"] == "ref":
-                    tgt.add(d.rv["place"]["l"])
-            for bb, i, s in tf.all_stmts():
-                if s["k"] == "assign" and s["place"] == {"l": 0} and s["rv"]["k"] == "use" and op_place(s["rv"]["op"]) and \
-                        op_place(s["rv"]["op"])["l"] in tgt:
-                    same = True
-        ctx.ob("C15.U4.taken-buffer-is-cleared", tf.path, ok and same,
-               "a pooled buffer can be handed out without clear(): instructions state from a previous compilation "
-               "leaks into the next", tf.loc)
+    check_buffer_pools(ctx, prog)
     # INTERNAL_SERIALIZATION
     sets = []
     for f in prog.fns.values():
